@@ -333,4 +333,29 @@ def DecText.render (t : DecText) : String :=
 /-- an iterable is the texts of its elements joined by commas -/
 def stringifyList (qs : List (Rat × Nat)) : List DecText := qs.map (fun p => stringifyDec p.1 p.2)
 
+/-! ## The templating step (`{{ name }}`, `{% if flag %} ... {% else %} ... {% endif %}`) as a function of THIS call's context
+
+Only the part of Jinja that the generated sources use; an undefined variable prints nothing, an undefined flag is false
+(Jinja's default `Undefined`). The function has no other input: what an earlier call put into its context cannot matter. -/
+
+inductive JPiece
+  | text (w : String)
+  | var (name : String)
+  | ite (flag : String) (negated : Bool) (thenWords elseWords : List String)
+  deriving Repr, Inhabited
+
+structure JCtx where
+  vars : String → Option String
+  flags : String → Option Bool
+
+def renderJinja (c : JCtx) (ps : List JPiece) : List String :=
+  ps.flatMap (fun p => match p with
+    | .text w => [w]
+    | .var n => match c.vars n with | some v => [v] | none => []
+    | .ite f neg th el => if ((c.flags f).getD false) != neg then th else el)
+
+/-- a process that renders a sequence of (context, template) pairs -/
+def renderAllJinja (calls : List (JCtx × List JPiece)) : List (List String) :=
+  calls.map (fun c => renderJinja c.1 c.2)
+
 end IrisVerif.ModelLang
